@@ -246,6 +246,8 @@ struct Run<V: VringT<GM> + Clone + Send + Sync + 'static, B: Wrap<V>> {
     listener_fds: HashMap<(usize, u64), EventFd>,
     panics0: u64,
     beq_ends: Option<(UnixStream, UnixStream)>,
+    listener: vhost::vhost_user::Listener,
+    path: std::path::PathBuf,
 }
 
 fn vres(r: vhost::Result<()>) -> Val {
@@ -308,6 +310,28 @@ impl<V: VringT<GM> + Clone + Send + Sync + 'static, B: Wrap<V>> Run<V, B> {
                 Err(_) => Val::s("err"),
             },
             "set_protocol_features" => vres(self.fe.set_protocol_features(VhostUserProtocolFeatures::from_bits_truncate(g(0)))),
+            // the frontend goes away and a new one connects to the same daemon: the handler's state (rings, memory
+            // table, translation table, log, acknowledged features) persists, the connection-level state does not
+            "reconnect" => {
+                let (a, _b) = UnixStream::pair().unwrap();
+                let old = std::mem::replace(&mut self.fe, Frontend::from_stream(a, 1));
+                drop(old);
+                let _ = self.daemon.wait();
+                let p2 = self.path.clone();
+                let connector = std::thread::spawn(move || UnixStream::connect(&p2));
+                if self.daemon.start(&mut self.listener).is_err() {
+                    return Val::s("restart-failed");
+                }
+                match connector.join() {
+                    Ok(Ok(sock)) => {
+                        self.fe = Frontend::from_stream(sock, 0x8000);
+                        self.fe.set_hdr_flags(VhostUserHeaderFlag::NEED_REPLY);
+                        let _ = self.fe.get_features();
+                        Val::s("ok")
+                    }
+                    _ => Val::s("connect-failed"),
+                }
+            }
             "get_queue_num" => match self.fe.get_queue_num() {
                 Ok(v) => Val::L(vec![Val::s("ok"), n(v)]),
                 Err(_) => Val::s("err"),
@@ -694,7 +718,7 @@ fn run_inner<V: VringT<GM> + Clone + Send + Sync + 'static, B: Wrap<V>>(cfg: &[V
     let fe = Frontend::from_stream(sock, 0x8000);
     fe.set_hdr_flags(VhostUserHeaderFlag::NEED_REPLY);
     let _ = fe.get_features();
-    let mut run: Run<V, B> = Run { _v: std::marker::PhantomData, daemon, fe, sh: sh.clone(), probes, rx, nthreads, fdt: FdTable::new(), evfds: HashMap::new(), masks, nq, listener_fds: HashMap::new(), panics0: crate::PANICS.load(std::sync::atomic::Ordering::SeqCst), beq_ends: None };
+    let mut run: Run<V, B> = Run { _v: std::marker::PhantomData, daemon, fe, sh: sh.clone(), probes, rx, nthreads, fdt: FdTable::new(), evfds: HashMap::new(), masks, nq, listener_fds: HashMap::new(), panics0: crate::PANICS.load(std::sync::atomic::Ordering::SeqCst), beq_ends: None, listener, path: path.clone() };
     let mut out = vec![];
     for st in steps {
         let parts = match st.as_l() {
@@ -710,7 +734,7 @@ fn run_inner<V: VringT<GM> + Clone + Send + Sync + 'static, B: Wrap<V>>(cfg: &[V
         // control messages without an acknowledgement: a GET_FEATURES round trip orders them
         let control = !matches!(
             kind.as_str(),
-            "kick" | "close_evfd" | "read_call" | "add_listener" | "fire_listener" | "queue_state" | "add_used" | "signal" | "write_mem" | "read_mem" | "regions" | "par_write"
+            "reconnect" | "kick" | "close_evfd" | "read_call" | "add_listener" | "fire_listener" | "queue_state" | "add_used" | "signal" | "write_mem" | "read_mem" | "regions" | "par_write"
                 | "backend_log" | "snapshot" | "panics" | "proxy_probe" | "guest_write" | "guest_read" | "file_size"
         );
         if control {
